@@ -306,6 +306,14 @@ pub fn gen_case(rng: &mut Rng, opts: &GenOpts) -> Case {
         })
         .collect();
     rng.shuffle(&mut dict_model);
+    // a word listed twice (adjacent records, or apart): both records count
+    if !dict_model.is_empty() && rng.chance(1, 8) {
+        let i = rng.below(dict_model.len());
+        let mut twin = dict_model[i].clone();
+        twin.weights = gen_weights(rng, twin.word.chars().count() + 1, class);
+        let at = if rng.chance(2, 3) { i + 1 } else { rng.below(dict_model.len() + 1) };
+        dict_model.insert(at, twin);
+    }
 
     let bias = match rng.below(4) {
         0 => 0,
@@ -433,4 +441,50 @@ pub fn gen_labels(rng: &mut Rng, n: usize, unknown_weight: u32) -> Vec<u8> {
     (0..n)
         .map(|_| rng.weighted(&[10, 10, unknown_weight]) as u8)
         .collect()
+}
+
+/// Structured case: nested dictionary words P ⊃ S1 ⊃ S2 (each a suffix of the previous one) where S1
+/// cancels S2 exactly at every position; returns the case and the index of S1 in the dictionary.
+pub fn cancelling_case(rng: &mut Rng) -> (Case, usize) {
+    let alpha = crate::text::alphabet(rng, 6, crate::text::Flavor::Plain);
+    let s2: Vec<char> = (0..rng.urange(1, 2)).map(|_| *rng.pick(&alpha)).collect();
+    let mut s1 = vec![*rng.pick(&alpha)];
+    s1.extend(&s2);
+    let mut p = vec![*rng.pick(&alpha)];
+    if rng.chance(1, 3) {
+        p.push(*rng.pick(&alpha));
+    }
+    p.extend(&s1);
+    let w2: Vec<i32> = (0..s2.len() + 1).map(|_| rng.range(-40, 40) as i32).map(|w| if w == 0 { 7 } else { w }).collect();
+    let mut w1 = vec![0i32];
+    w1.extend(w2.iter().map(|w| -w));
+    let wp: Vec<i32> = (0..p.len() + 1).map(|_| rng.range(-9, 9) as i32).collect();
+    let rec = |w: &[char], ws: Vec<i32>| WordWeightRecord { word: w.iter().collect(), weights: ws, comment: String::new() };
+    let mut dict = vec![(1u8, rec(&s1, w1)), (2, rec(&s2, w2)), (0, rec(&p, wp))];
+    if rng.chance(1, 2) {
+        // an unrelated word keeps pattern ids from being trivially ordered
+        let other: Vec<char> = vec![*rng.pick(&alpha), *rng.pick(&alpha), *rng.pick(&alpha)];
+        if other != p && other != s1 && other != s2 {
+            dict.push((3, rec(&other, vec![1, -1, 2, -2])));
+        }
+    }
+    rng.shuffle(&mut dict);
+    let s1_at = dict.iter().position(|d| d.0 == 1).unwrap();
+    let model = ModelData {
+        dict_model: dict.into_iter().map(|d| d.1).collect(),
+        type_ngram_model: vec![NgramData { ngram: vec![crate::text::ctype(alpha[0])], weights: vec![1, -2] }],
+        bias: rng.range(-3, 3) as i32,
+        char_window_size: rng.urange(1, 3) as u8,
+        type_window_size: 1,
+        ..ModelData::default()
+    };
+    let mut texts = vec![p.clone(), s1.clone()];
+    let mut t = vec![*rng.pick(&alpha)];
+    t.extend(&p);
+    t.push(*rng.pick(&alpha));
+    t.extend(&s1);
+    t.extend(&s2);
+    texts.push(t);
+    texts.push(text::text_from(rng, &alpha, 12));
+    (Case { model, texts, weight_class: "cancelling" }, s1_at)
 }
